@@ -38,3 +38,36 @@ pub fn verif_server_ops(ops: &[String]) -> String {
   }
   format!("{} || {}", out.join(" | "), ws.verif_dump())
 }
+
+// TCK round trip of one value: the FEEL expression is evaluated, the value converted to its DTO at the top level of a result
+// (OutputNodeDto) and nested in a list (ValueDto), serialised by serde, and each DTO read back through WrappedValue.
+pub fn verif_tck(expr: &str) -> String {
+  use std::convert::TryFrom;
+  let ctx = match dmntk_evaluator::evaluate_context(&dmntk_feel::Scope::default(), &format!("{{v: {}}}", expr)) {
+    Ok(c) => c,
+    Err(e) => return format!("CTX-ERROR {}", e),
+  };
+  let value = match ctx.get_entry(&dmntk_feel::Name::from("v")) {
+    Some(v) => v.clone(),
+    None => return "NO-VALUE".to_string(),
+  };
+  let mut out = vec![];
+  match crate::dto::OutputNodeDto::try_from(value.clone()) {
+    Ok(node) => {
+      let json = serde_json::to_string(&node).unwrap_or_default();
+      let back = node.value.as_ref().map(|d| crate::dto::WrappedValue::try_from(d).map(|w| w.0));
+      out.push(format!("top {} back={}", json, match back { Some(Ok(v)) => format!("{}:{}", v.type_of(), v), Some(Err(e)) => format!("ERR {}", e), None => "none".to_string() }));
+    }
+    Err(e) => out.push(format!("top ERR {}", e)),
+  }
+  let list = dmntk_feel::values::Value::List(dmntk_feel::values::Values::new(vec![value.clone()]));
+  match crate::dto::OutputNodeDto::try_from(list) {
+    Ok(node) => {
+      let json = serde_json::to_string(&node).unwrap_or_default();
+      let back = node.value.as_ref().map(|d| crate::dto::WrappedValue::try_from(d).map(|w| w.0));
+      out.push(format!("nested {} back={}", json, match back { Some(Ok(v)) => format!("{}:{}", v.type_of(), v), Some(Err(e)) => format!("ERR {}", e), None => "none".to_string() }));
+    }
+    Err(e) => out.push(format!("nested ERR {}", e)),
+  }
+  format!("value={}:{} || {}", value.type_of(), value, out.join(" || "))
+}
